@@ -58,6 +58,10 @@ def bounded_session(limit=60, **kwargs):
 def run(s, stmt):
     """H.run, but a poll-horizon overrun (which the Break should have prevented) is a
     harness error with a readable message."""
+    inp = getattr(s, 'verif_inputs', None)
+    if inp is not None:
+        # events loaded for a poll that the previous command never reached must not leak into this one
+        inp._pending = list(inp.schedule.get(0, ()))
     try:
         return H.run(s, stmt)
     except H.Horizon:
